@@ -1013,7 +1013,7 @@ func ruleR11_5(c *Check) {
 		if !isAs || as.Tok != token.ASSIGN || len(as.Rhs) != 1 {
 			continue // the increment written out
 		}
-		r.Check(w.fieldOf(as.Rhs[0]) == mv, o.SiteFn, "oracle continues from the streamed max version", as, "nextTxnTs set from "+short(w, as.Rhs[0]))
+		r.Check(w.fieldOf(w.Origin(o.SiteFn, as.Rhs[0])) == mv, o.SiteFn, "oracle continues from the streamed max version", as, "nextTxnTs set from "+short(w, as.Rhs[0]))
 		if g := o.SiteFn; !seenFn[g] {
 			seenFn[g] = true
 			r.DomAll(g, "txnMark.Done after nextTxnTs", selCallOn(done, w.Field("badger.oracle.txnMark")), 0, selNode(as), 0)
